@@ -1,6 +1,6 @@
 # C09: schema compilers emit Go code that implements the schema.
 #   run_tl(ck)   TL half: tl/parser (spec/TlSem.tla, spec/gen/TlShape_Gen.tla, spec/trace/TlSem_Trace.tla)
-#   run_tlb(ck)  TL-B half: tlb/parser (spec/TlbMini.tla, spec/gen/TlbShape_Gen.tla incl. its Either family, spec/trace/TlbMini_Trace.tla)
+#   run_tlb(ck)  TL-B half: tlb/parser (spec/TlbMini.tla, spec/gen/TlbShape_Gen.tla incl. its Either and unnamed-field families, spec/trace/TlbMini_Trace.tla)
 import copy, json, os, re, shutil, sys
 import vlib
 from vlib import Infra, log
@@ -457,13 +457,16 @@ RULE_TLB = ("TL-B half. TlbShape_Gen (TLC over TlbMini.tla) enumerates declarati
             "(always all 96 schemas): (Either l r) for every l, r in {X, ^X, Y, ^Y} with (X, Y) = (Inner, uint16) and (uint8, Alt) -- same and different types, "
             "reference on the left only / right only / both / none -- as the only field, under Maybe, and between other fields (bits and a reference before, a "
             "reference and a bit after); their values take the left and the right side in turn (and `nothing` under Maybe; TLC refuses to emit a schema whose "
-            "vectors miss a side). The runner renders "
+            "vectors miss a side). The unnamed-field family (always all 32 schemas): a field written without `name:` in every form the grammar allows -- ^X (record, "
+            "builtin), ^[ ... ], plain X (record, union), (Maybe ^X), (Maybe X), (Either X ^X) -- alone, first, in the middle and last among named fields incl. "
+            "references; same layout as a named field (an unnamed ^ is a reference to a new cell). The runner renders "
             ".tlb text, runs /repo's tlb/parser twice (identical output required), compiles the generated struct types (one go build per 200 packages) "
             "and the driver marshals each value with tlb.Marshal: cells are compared with the vector (S->C) and every call is judged by TlbMini_Trace "
             "(TlbMini!Matches: bit-exact, any HmLabel form; error iff the value does not fit a cell). Random larger TL-B schemas with Go-generated values "
             "go the same C->S way. Canaries of the Either family: TLC also emits, for a value of (Either ^X X), the cell with the reference on the other side "
             "(the declaration with the ^ exchanged); TlbMini!Matches must refuse it at generation time, the driver must report a mismatch when it is the "
-            "expectation, and TlbMini_Trace must reject an event carrying it (left and right value each), while the prescribed cells pass.")
+            "expectation, and TlbMini_Trace must reject an event carrying it (left and right value each), while the prescribed cells pass; the same three judges "
+            "must refuse the twin of an unnamed ^ field whose content is inline instead of in a new cell.")
 
 
 def tlb_type_text(t):
@@ -492,7 +495,8 @@ def tlb_type_text(t):
 def render_tlb(ast):
     out = []
     for d in ast["decls"]:
-        fs = "".join("%s:%s " % (f["name"], tlb_type_text(f["ty"])) for f in d["fields"])
+        # an unnamed field (TlbShape_Gen: anon |-> TRUE) is written without `name:`; its name is only the key of the value record
+        fs = "".join(("%s " % tlb_type_text(f["ty"])) if f.get("anon") else "%s:%s " % (f["name"], tlb_type_text(f["ty"])) for f in d["fields"])
         out.append("%s%s %s= %s;" % (d["ctor"], d["tag"], fs, d["result"]))
     return "\n".join(out) + "\n"
 
@@ -590,11 +594,12 @@ def write_tlb_pkg(mod, sid, ast, text):
 
 
 EBASE, ECOUNT = 9_000_000, 96     # TlbShape_Gen!EBase: the Either family — (Either l r), l, r in {X, ^X, Y, ^Y}, two type pairs, three contexts
+ABASE, ACOUNT = 9_100_000, 32     # TlbShape_Gen!ABase: the unnamed-field family — 8 forms of a field without `name:` x alone / first / middle / last
 
 
 def tlb_shape_numbers(ck):
     NA = 43
-    either = [EBASE + e for e in range(ECOUNT)]
+    either = [EBASE + e for e in range(ECOUNT)] + [ABASE + a for a in range(ACOUNT)]
     if ck.thorough:
         return list(range(NA)) + [NA + (ck.seed % 1000) * 5000 + i for i in range(1000 - NA)] + either
     return list(range(NA)) + [NA + (ck.seed % 1000) * 5000 + i for i in range(60 - NA)] + either
@@ -756,8 +761,9 @@ def run_tlb(ck, mod):
     vlib.write_ndjson(ip, [{"schema": sidc, "ast": schemas[sidc]["ast"], "vecs": [cv]}])
     vlib.sh([built[bi][0], "-mode", "tlb", "-in", ip, "-out", op, "-trace", tp], cwd=ck.work, env=vlib.GOENV, timeout=300)
     ck.canary("TL-B S->C: last bit of an expected cell flipped", not vlib.read_ndjson(op)[0]["match"])
-    # ---- Either family: an expectation with the reference on the other side of the Either must be refused by both judges.
-    # The wrong cell comes from TLC (TlbShape_Gen `wrong`: the same value under the declaration with the ^ of the two sides exchanged).
+    # ---- the two families: an expectation with the reference in the wrong place must be refused by both judges.
+    # The wrong cell comes from TLC (TlbShape_Gen `wrong`: the same value under the declaration with the ^ of the two sides of the
+    # Either exchanged / with the ^ of the unnamed field dropped, i.e. inline instead of referenced).
     def side_of(v):
         for x in v["v"].values():
             if isinstance(x, dict) and x.get("m") == "just":
@@ -765,50 +771,63 @@ def run_tlb(ck, mod):
             if isinstance(x, dict) and "e" in x:
                 return x["e"]
         return None
-    def wrong_pair(sid):
+    def wrong_pair_either(sid):
         out = {}
         for v in schemas[sid]["vecs"]:
             if v["ty"] == "Main" and "wrong" in v and side_of(v) in ("l", "r"):
                 out.setdefault(side_of(v), v)
         return [out[x] for x in ("l", "r")] if len(out) == 2 else None
-    fam = [sid for sid in [EBASE + 4, EBASE + 1] + sorted(schemas) if EBASE <= sid < EBASE + ECOUNT and sid in usable and sid in results
-           and all(r_["match"] for r_ in results[sid]) and sid not in rejected_by_schema and wrong_pair(sid)]
-    if not fam:
-        if bad:
-            ck.notes.append("no Either-family schema passed on this (violating) run: the wrong-side canaries were not built")
-            return
-        raise Infra("no Either-family schema to build the wrong-side canaries from")
-    sidw = fam[0]
-    pair = wrong_pair(sidw)
-    cvs = [dict(copy.deepcopy(v), cell=v["wrong"], vec=i) for i, v in enumerate(pair)]
-    bi = next(i for i, sids in enumerate(batches) if sidw in sids)
-    ip, op, tp = os.path.join(ck.work, "canary_side_in.ndjson"), os.path.join(ck.work, "canary_side_out.ndjson"), os.path.join(ck.work, "canary_side_tr.ndjson")
-    vlib.write_ndjson(ip, [{"schema": sidw, "ast": schemas[sidw]["ast"], "vecs": cvs}])
-    vlib.sh([built[bi][0], "-mode", "tlb", "-in", ip, "-out", op, "-trace", tp], cwd=ck.work, env=vlib.GOENV, timeout=300)
-    got = [r_ for r_ in vlib.read_ndjson(op) if r_.get("k") != "End"]
-    ck.canary("TL-B S->C: expected cells with the reference on the other side of the Either (left and right value, schema %d)" % sidw,
-              len(got) == 2 and not any(r_["match"] for r_ in got))
-    reset = {"k": "Reset", "schema": schemas[sidw]["ast"], "note": "schema %d" % sidw}
-    evw = []
-    for v in pair:
-        evw += [reset, {"k": "TlbMarshal", "ty": v["ty"], "v": v["v"], "err": "", "cell": v["wrong"]}]
-    p = os.path.join(ck.work, "canary_side.ndjson")
-    vlib.write_ndjson(p, evw + [{"k": "End"}])
-    st, tr, ok, evn = ck.states, ck.transitions, ck.traces_ok, ck.evaluations
-    _, rej = ck.validate_segments("TlbMini_Trace", "trace/TlbMini_Trace.cfg", p, name="canary_side")
-    ck.states, ck.transitions, ck.traces_ok, ck.evaluations = st, tr, ok, evn
-    ck.canary("TL-B C->S: recorded cells with the reference on the other side of the Either (left and right value, schema %d)" % sidw,
-              sorted(r_["line"] for r_ in rej) == [2, 4])
-    # and the same two events with the cells the declaration prescribes are accepted (the canary is about the side, not the event's form)
-    evr = []
-    for v in pair:
-        evr += [reset, {"k": "TlbMarshal", "ty": v["ty"], "v": v["v"], "err": "", "cell": v["cell"]}]
-    vlib.write_ndjson(p, evr + [{"k": "End"}])
-    _, rej = ck.validate_segments("TlbMini_Trace", "trace/TlbMini_Trace.cfg", p, name="canary_side_ctl")
-    ck.states, ck.transitions, ck.traces_ok, ck.evaluations = st, tr, ok, evn
-    if rej:
-        raise Infra("the control of the wrong-side canary (prescribed cells) was rejected")
-    ck.extra["either_family"] = {"schemas": sum(1 for sid in schemas if EBASE <= sid < EBASE + ECOUNT), "canary_schema": schemas[sidw]["text"].splitlines()[7]}
+    def wrong_pair_unnamed(sid):
+        out = [v for v in schemas[sid]["vecs"] if v["ty"] == "Main" and "wrong" in v][:2]
+        return out if len(out) == 2 else None
+    fams = [("either", "the reference on the other side of the Either", EBASE, ECOUNT, [EBASE + 4, EBASE + 1], wrong_pair_either),
+            ("unnamed", "the unnamed reference field inline instead of in a new cell", ABASE, ACOUNT, [ABASE + 2, ABASE + 10], wrong_pair_unnamed)]
+    chosen = []        # (tag, what, schema, its two vectors)
+    for tag, what, base, count, first, wrong_pair in fams:
+        fam = [sid for sid in first + sorted(schemas) if base <= sid < base + count and sid in usable and sid in results
+               and all(r_["match"] for r_ in results[sid]) and sid not in rejected_by_schema and wrong_pair(sid)]
+        if fam:
+            chosen.append((tag, what, fam[0], wrong_pair(fam[0])))
+        elif bad:
+            ck.notes.append("no %s-family schema passed on this (violating) run: its wrong-place canaries were not built" % tag)
+        else:
+            raise Infra("no %s-family schema to build the wrong-place canaries from" % tag)
+    if chosen:
+        # S->C: one driver run per batch binary, the wrong cells as expectations
+        got = {}
+        for bi in sorted({next(i for i, sids in enumerate(batches) if sidw in sids) for _, _, sidw, _ in chosen}):
+            mine = [c for c in chosen if c[2] in batches[bi]]
+            ip, op, tp = [os.path.join(ck.work, "canary_place_%d_%s.ndjson" % (bi, x)) for x in ("in", "out", "tr")]
+            vlib.write_ndjson(ip, [{"schema": sidw, "ast": schemas[sidw]["ast"], "vecs": [dict(copy.deepcopy(v), cell=v["wrong"], vec=i) for i, v in enumerate(pair)]}
+                                   for _, _, sidw, pair in mine])
+            vlib.sh([built[bi][0], "-mode", "tlb", "-in", ip, "-out", op, "-trace", tp], cwd=ck.work, env=vlib.GOENV, timeout=300)
+            for r_ in vlib.read_ndjson(op):
+                if r_.get("k") != "End":
+                    got.setdefault(r_["schema"], []).append(r_["match"])
+        # C->S: one TlbMini_Trace run: per family two segments with the wrong cell (line 2 of each must be rejected), then the same
+        # events with the prescribed cells as control (must be accepted: the canary is about the place, not the event's form)
+        evw, want = [], []
+        for field in ("wrong", "cell"):
+            for _, _, sidw, pair in chosen:
+                for v in pair:
+                    evw += [{"k": "Reset", "schema": schemas[sidw]["ast"], "note": "schema %d" % sidw},
+                            {"k": "TlbMarshal", "ty": v["ty"], "v": v["v"], "err": "", "cell": v[field]}]
+                    if field == "wrong":
+                        want.append((sidw, len(evw)))
+        p = os.path.join(ck.work, "canary_place.ndjson")
+        vlib.write_ndjson(p, evw + [{"k": "End"}])
+        st, tr, ok, evn = ck.states, ck.transitions, ck.traces_ok, ck.evaluations
+        _, rej = ck.validate_segments("TlbMini_Trace", "trace/TlbMini_Trace.cfg", p, name="canary_place")
+        ck.states, ck.transitions, ck.traces_ok, ck.evaluations = st, tr, ok, evn
+        lines = sorted(r_["line"] for r_ in rej)
+        if any(l > want[-1][1] for l in lines):
+            raise Infra("the control of the wrong-place canaries (prescribed cells) was rejected")
+        for tag, what, sidw, pair in chosen:
+            ck.canary("TL-B S->C: expected cells with %s (two values, schema %d)" % (what, sidw), got.get(sidw) == [False, False])
+            ck.canary("TL-B C->S: recorded cells with %s (two values, schema %d)" % (what, sidw),
+                      [l for l in lines if l in [w for s_, w in want if s_ == sidw]] == [w for s_, w in want if s_ == sidw])
+            ck.extra["%s_family" % tag] = {"schemas": sum(1 for sid in schemas if dict((f[0], f[2]) for f in fams)[tag] <= sid < dict((f[0], f[2] + f[3]) for f in fams)[tag]),
+                                           "canary_schema": next(l for l in schemas[sidw]["text"].splitlines() if l.startswith("main"))}
 
 
 def bad_what_of_kind(bad, schemas, kind):
